@@ -243,3 +243,10 @@ Eval vm_compute in show_sched (old_sys_of osc_race_read) ow_race_read.
 Eval vm_compute in show_sched (old_sys_of osc_race) ow_stranded.
 Eval vm_compute in show_sched (old_sys_of osc_nc_eof) ow_nc_eof.
 Eval vm_compute in show_sched (old_sys_of osc_nc_second) ow_nc_second.
+
+(* Channel.read / Read / ReadAll as translated (the whole trace of a round compared with the model's):
+   the read loop notices a stopped channel before the transport is read and again after a failed read, and never hands an error over once stopped *)
+From Scrapli Require Import ChanReadSrc.
+Theorem C07_chan_read_round_is_source : chan_read_table_ok = true.
+Proof. exact chan_read_round_is_source. Qed.
+Print Assumptions C07_chan_read_round_is_source.
